@@ -92,6 +92,7 @@ def runtime_code_matches(k):
     parts = path.split('.')
     try:
         for i, part in enumerate(parts):
+            if isinstance(obj, property): obj = obj.fget          # `@property class X:` (SBlock._enable_event)
             obj = vars(obj)[part] if isinstance(obj, type) else getattr(obj, part)
     except (KeyError, AttributeError):
         return False, 'name does not resolve at run time'
